@@ -345,6 +345,11 @@ class OptionAlphabet:
         argv = []
         for o in chosen:
             argv += self.gen_option(rng, o)
+        if chosen and rng.random() < 0.1:
+            # an option given twice: the last occurrence wins in argparse
+            o = rng.choice(chosen)
+            if o["kind"] != "flag":
+                argv += self.gen_option(rng, o)
         return argv, [o["dest"] for o in chosen]
 
 
